@@ -96,16 +96,18 @@ var (
 func Parse(src []byte) (*Tree, error) {
 	p := &parser{body: src}
 	hsum := crc64.Checksum(p.body, crc64Tab)
-	if tree := decDB.getTreeByHash(hsum); tree != nil {
+	if tree := decDB.getTreeByHash(hsum, src); tree != nil {
 		return tree, nil
 	}
 
 	t := p.targetSnapshot()
 	nodes, _, err := p.parse(nil, nil, 0, t)
-	return &Tree{
-		nodes: nodes,
-		hsum:  0,
-	}, err
+	tree := &Tree{nodes: nodes}
+	if err == nil {
+		tree.hsum = hsum
+		tree.src = append([]byte{}, src...)
+	}
+	return tree, err
 }
 
 // ParseFile parses the file.
